@@ -90,7 +90,7 @@ def judge (tag : OvTag) (ideal : Ideal) (satD : Nat) (res : String) : Option Boo
 def c11CvtClass (mode : RdMode) (d1 : Nat) (e1 e3 : Int) (a : Int) : String :=
   if e3 ≤ e1 then "" else
   let k := (e3 - e1).toNat
-  if k ≥ d1 then "C11.narrowing_drops_all_digits"
+  if k > d1 then "C11.narrowing_drops_all_digits"
   else
     let q := Spec.roundDiv (modeOf11 mode) a (2^k)
     if q.natAbs > 2^(d1 - k) - 1 then "C11.rounded_value_exceeds_intermediate_digits" else ""
@@ -147,7 +147,11 @@ def checkC11 (toks : List String) (res : String) : Option Verdict :=
         let q ← binOp c .div s y
         Static.convert c d3 e3 q
       let ideal := idealCvt mode tag d3 e3 (idealBin mode .div (idealBin mode .sub (.val e1 a) (.val e2 b)) (.val e2 b))
-      some { model := showRes showSN m, spec := judge tag ideal d3 res, branch := "chain/sub_div_cvt", nontrivial := b != 0 }
+      -- the narrowing applies to the model-computed quotient
+      let cls := match (do let s ← binOp c .sub x y; binOp c .div s y : Res SNum) with
+        | .ok q => c11CvtClass mode q.digits q.exp e3 q.value
+        | _ => ""
+      some { model := showRes showSN m, spec := judge tag ideal d3 res, cls := cls, branch := "chain/sub_div_cvt", nontrivial := b != 0 }
     | _ => none
   | _ => none
 
